@@ -67,6 +67,9 @@ type vfGccScript struct {
 	// CbWait: a rate consumer that is busy while feedback is being fed - the OnTargetBitrateChange callback does not return
 	// before every WriteRTCP call in progress has returned (e.g. it hands the rate to the loop that also feeds the feedback)
 	CbWait bool `json:"cbwait"`
+	// CbHold: a slow rate consumer - the FIRST invocation of the change callback takes this many milliseconds; every change
+	// published meanwhile must still be announced
+	CbHold int `json:"cbhold"`
 	// level conc
 	Feeders    int `json:"feeders"`
 	Writes     int `json:"writes"`
